@@ -246,8 +246,14 @@ class Parser(object):
         p[0] = self.asttypes.Regex(p[1])
         p[0].setpos(p)
 
+    # GETPROP and SETPROP are what the lexer makes of `get` and `set`
+    # when followed by white space and an identifier; outside of an
+    # accessor property they are ordinary identifiers.
     def p_identifier(self, p):
-        """identifier : ID"""
+        """identifier : ID
+                      | GETPROP
+                      | SETPROP
+        """
         p[0] = self.asttypes.Identifier(p[1])
         p[0].setpos(p)
 
